@@ -170,7 +170,11 @@ def check(task):
         return res
     exp = expected_binding(k, mask, shape, vals)
     res["defaults_used"] = sum(1 for i in range(k) if i not in shape[0] and i not in shape[1])
-    v2x.step(st, v2x.resolve_event(st, ("start_main",)), [], v2x.UIDS.n)
+    try:
+        v2x.step(st, v2x.resolve_event(st, ("start_main",)), [], v2x.UIDS.n)
+    except Exception as e:
+        bad(f"call-raised:{form}", f"callee {signature_text(k, mask)} called `{call_text(shape, vals)}`: the interpreter raised {type(e).__name__}: {str(e)[:120]}")
+        return res
     res["steps"] += 1
     outs = {e["type"]: e for e in st.outgoing_events}
     if form == "activate_twice":
@@ -204,7 +208,11 @@ def check(task):
         return res
     if "After" in outs:
         bad(f"caller-continued-before-callee-finished:{form}", "After emitted before the callee finished")
-    v2x.step(st, {"type": "Go"}, [], v2x.UIDS.n)
+    try:
+        v2x.step(st, {"type": "Go"}, [], v2x.UIDS.n)
+    except Exception as e:
+        bad(f"call-raised:{form}", f"callee {signature_text(k, mask)} called `{call_text(shape, vals)}`: the interpreter raised {type(e).__name__} on Go: {str(e)[:120]}")
+        return res
     res["steps"] += 1
     outs = {e["type"]: e for e in st.outgoing_events}
     after, sibe = outs.get("After"), outs.get("SibEcho")
